@@ -287,8 +287,10 @@ def load_unit(name):
 def run_unit(ctx, name):
     res = UnitResult(name)
     t0 = time.time()
+    res.mod = None
     try:
         mod = load_unit(name)
+        res.mod = mod
         shutil.rmtree(ctx.outdir(name), ignore_errors=True)
         os.makedirs(ctx.outdir(name), exist_ok=True)
         jobs = mod.build(ctx, res)
@@ -297,13 +299,10 @@ def run_unit(ctx, name):
                 run_verus_job(ctx, res, job)
             else:
                 run_kani_job(ctx, res, job)
-        res.mod = mod
     except ExtractError as e:
         res.undecided.append("extraction: %s" % e)
-        res.mod = None
     except Exception as e:  # framework bug: never an alarm
         res.undecided.append("framework error: %s\n%s" % (e, traceback.format_exc()[-1500:]))
-        res.mod = None
     res.wall_s = time.time() - t0
     return res
 
@@ -372,12 +371,18 @@ def run_property(prop, units, tier, seed, meta):
             violations.append((o, path, info))
         # thorough tier: seeded native differential run of the real code against the executable postconditions
         # (a cross-check of the spec functions and of the trusted outlines, not a substitute for the proofs)
-        if ctx.tier == "thorough" and res.mod is not None and hasattr(res.mod, "replay") and not res.failures and not res.undecided:
+        # The same run is the fallback when the proof could not even be attempted (lost anchor, ghost code no longer type-checks
+        # after a refactoring, tool limit): undecided stays undecided unless the real code is SHOWN to violate the executable
+        # postcondition on a concrete input - then that input is the violation.
+        unit_undecided = bool(res.undecided) and not any(v[2].get("unit") == res.unit for v in violations)
+        if res.mod is not None and hasattr(res.mod, "replay") and ((ctx.tier == "thorough" and not res.failures and not res.undecided) or unit_undecided):
             try:
                 d = res.mod.replay(ctx, res, {"obl": None}) or {}
                 res.notes.append("thorough: seeded native differential run (VERIF_SEED=%d): %s" % (ctx.seed, "FAILING INPUT " + json.dumps(d.get("input"), default=str)[:400] if d.get("found_input") else (d.get("native_search") or "")[:160].replace("\n", " ")))
                 if d.get("found_input"):
-                    o = Obl("native:%s:differential" % res.unit, "native", "failed", kind="proved", detail="seeded native run of the real code disagrees with the executable postcondition")
+                    o = Obl("native:%s:differential" % res.unit, "native", "failed", kind="proved",
+                            detail="seeded native run of the real code disagrees with the executable postcondition" +
+                                   ("; the deductive check of this unit was undecided on this tree: " + " | ".join(res.undecided)[:1500] if unit_undecided else ""))
                     info = {"property": ctx.prop, "unit": res.unit, "obligation": o.id, "backend": "native", "verifier_output": o.detail}
                     info.update(d)
                     path = os.path.join(replay_dir, re.sub(r"[^\w.-]", "_", o.id) + ".json")
